@@ -386,6 +386,13 @@ theorem step_k4 (s s' : St) (e : Ev) (h : K4 s) (hs : step s e = some s') : K4 s
       · simp at hs; subst hs; exact fr _ rfl rfl rfl rfl rfl
       all_goals cases hs
     · cases hs
+  | envErr a e0 =>
+    simp only [step, stepI] at hs
+    split at hs
+    · split at hs
+      · simp at hs; subst hs; exact fr _ rfl rfl rfl rfl rfl
+      all_goals cases hs
+    · cases hs
   | giveUp n =>
     simp only [step, stepI] at hs
     split at hs
